@@ -4,6 +4,7 @@ import re
 from lib import machine as mc
 from lib.mir import AnchorMissing
 from . import nf_common, nfq
+from .guardlib import gval, comparisons, lt_true, ge_true
 
 MANIFEST = {
     "text": "Must-pass-through rules on tendril.rs / fmt.rs: every write into heap storage is preceded on its path by make_owned / make_owned_with_capacity (copy on write) or targets a buffer created in the same function; every set_len belongs to a reviewed class (grow after own, zero-copy merge under all four sharing conditions, shrink); every safe method that reaches an unchecked primitive passes the matching bounds test and F::validate* first; format validators of subsequences check both ends. Plus equality of all 182 functions of tendril::{tendril, buf32, fmt, util} with their reviewed normal forms. futf's byte classes (complete table over 256 values, extracted by partial evaluation) and decode thresholds are UTF-8's (R11.6).",
@@ -144,8 +145,7 @@ def r11_2(ctx):
             if val and not any(v and val in g for g, v in pc["guards"].items()):
                 bad = "reaches %s without a successful %s..)" % (prim, val)
             if bound:
-                bg = [v for g, v in pc["guards"].items() if g.startswith(bound) or g == bound]
-                if not bg or any(bg):
+                if gval(pc["guards"], bound) is not False:
                     bad = "reaches %s without the bounds test %s being false" % (prim, bound)
         n += 1
         ctx.ob("R11.2", "checked-before-unchecked/" + fn, bad is None and k > 0, bad or "%d path(s) reach the unchecked primitive, all after validation%s" % (k, " and the bounds test" if bound else ""), "tendril " + fn)
@@ -175,8 +175,9 @@ def r11_3(ctx):
         ctx.ob("R11.3", "subseq-checks-both-ends/" + fmtname, ok, "validate_subseq = validate_prefix AND validate_suffix" if ok else "validate_subseq does not check both ends of the slice: a subtendril may start or end inside a code point")
         yes = [pc for pc in nfq.feasible(pcs) if str(pc["ret"]) in ("true",) or "validate_suffix" in str(pc["ret"])]
     key, pcs = nfq.cells(ctx, AREA, "fmt::UTF8[Format]::validate")
-    blob = " ".join(str(pc["ret"]) + " ".join(nfq.texts(pc)) for pc in pcs)
-    ctx.ob("R11.3", "utf8-validate-is-from_utf8", "from_utf8(p1).is_ok()" in blob, "UTF8::validate(buf) = str::from_utf8(buf).is_ok()")
+    fe = nfq.feasible(pcs)
+    ok = bool(fe) and all(gval(pc["guards"], "from_utf8(p1) matches Ok(_)") is not None and str(pc["ret"]) == ("true" if gval(pc["guards"], "from_utf8(p1) matches Ok(_)") else "false") and not nfq.texts(pc) for pc in fe)
+    ctx.ob("R11.3", "utf8-validate-is-from_utf8", ok, "UTF8::validate(buf) = str::from_utf8(buf).is_ok()")
 
 
 def r11_6(ctx):
